@@ -77,7 +77,123 @@ def colMaxMin {p k : Nat} (V : Mat p k Float) (j : Fin k) : Float × Float :=
   | [] => (0.0, 0.0)
   | x :: xs => (xs.foldl (fun a b => if b > a then b else a) x, xs.foldl (fun a b => if b < a then b else a) x)
 
+/-! ### complex doubles: the SAME polymorphic model definitions instantiated at `XM.CF` -/
+def cfOfBits (bits : Array String) (idx : Nat) : CF := ⟨bitsToFloat (bits[2 * idx]!), bitsToFloat (bits[2 * idx + 1]!)⟩
+
+def cmatOfBits (n m : Nat) (bits : Array String) : Mat n m CF := Mat.ofFn fun i j => cfOfBits bits (i.val * m + j.val)
+
+def cmatToBits {n m : Nat} (A : Mat n m CF) : Array String := Id.run do
+  let mut out := #[]
+  for i in List.finRange n do
+    for j in List.finRange m do
+      let z := A.get i j
+      out := (out.push (floatToBits z.re)).push (floatToBits z.im)
+  return out
+
+/-- numpy orders complex numbers lexicographically (real part, then imaginary part) -/
+def cfLt (a b : CF) : Bool := a.re < b.re || (a.re == b.re && a.im < b.im)
+
+def cfAbs (z : CF) : Float := Float.sqrt (z.re * z.re + z.im * z.im)
+
+/-- sign of one complex column: generated rule on the moduli of the lexicographic maximum and minimum -/
+def csignOfCol {p k : Nat} (V : Mat p k CF) (j : Fin k) : Float :=
+  match (List.finRange p).map (fun i => V.get i j) with
+  | [] => 1.0
+  | x :: xs =>
+    let mx := xs.foldl (fun a b => if cfLt a b then b else a) x
+    let mn := xs.foldl (fun a b => if cfLt b a then b else a) x
+    Gen.signRuleXarrayComplexF (cfAbs mx) (cfAbs mn)
+
+def handleC (j : Json) : Json :=
+  match getStr j "fn" with
+  | "eof" =>
+    let n := getNat j "n"; let p := getNat j "p"; let r := getNat j "r"; let k := getNat j "k"
+    if h : k ≤ r then
+      let U := cmatOfBits n r (getStrArr j "U")
+      let V := cmatOfBits p r (getStrArr j "V")
+      let VT := cmatOfBits p r (getStrArr j "VTt")   -- the rows of VT as columns: what the sign rule looks at (before the conjugation)
+      let sA := (getStrArr j "s").map bitsToFloat
+      let s : Fin r → Float := fun i => sA[i.val]!
+      let sgn : Fin k → Float := fun jj => csignOfCol (VT.firstCols k h) jj
+      let F : EofFit n p k Float CF := eofFit h h h U s V sgn
+      let total := bitsToFloat (getStr j "total")
+      let m := getNat j "m"
+      let X := cmatOfBits m p (getStrArr j "X")
+      let tf := eofTransform F X
+      Json.mkObj [("status", "ok"), ("comps", toJson (cmatToBits F.comps)), ("scores", toJson (cmatToBits F.scores)),
+        ("expvar", toJson (vecToBits F.expvar)), ("ratio", toJson (vecToBits (eofRatio F total))),
+        ("sgn", toJson (vecToBits sgn)), ("transform", toJson (cmatToBits tf)), ("inverse", toJson (cmatToBits (eofInverse F tf)))]
+    else Json.mkObj [("status", "ValueError")]
+  | "cpcca" =>
+    let n := getNat j "n"; let p := getNat j "p"; let q := getNat j "q"; let r := getNat j "r"; let k := getNat j "k"
+    if h : k ≤ r then
+      let X := cmatOfBits n p (getStrArr j "X"); let Y := cmatOfBits n q (getStrArr j "Y")
+      let Q1 := cmatOfBits p r (getStrArr j "Q1"); let Q2 := cmatOfBits q r (getStrArr j "Q2")
+      let VT := cmatOfBits q r (getStrArr j "VTt")
+      let sA := (getStrArr j "s").map bitsToFloat
+      let s : Fin r → Float := fun i => sA[i.val]!
+      let sgn : Fin k → Float := fun jj => csignOfCol (VT.firstCols k h) jj
+      let F : CpccaFit n p q k Float CF := cpccaFit h X Y Q1 s Q2 sgn
+      let m := getNat j "m"
+      let Xn := cmatOfBits m p (getStrArr j "Xn")
+      let C : Mat p q CF := crossCov (ρ := Float) X Y
+      Json.mkObj [("status", "ok"), ("crosscov", toJson (cmatToBits C)),
+        ("comps1", toJson (cmatToBits F.comps1)), ("comps2", toJson (cmatToBits F.comps2)),
+        ("scores1", toJson (cmatToBits F.scores1)), ("scores2", toJson (cmatToBits F.scores2)),
+        ("svals", toJson (vecToBits F.svals)), ("sqcov", toJson (vecToBits F.sqcov)),
+        ("norm1", toJson (vecToBits F.norm1)), ("norm2", toJson (vecToBits F.norm2)),
+        ("transform1", toJson (cmatToBits (cpccaTransform1 F Xn false))),
+        ("transform1n", toJson (cmatToBits (cpccaTransform1 F Xn true))),
+        ("inverse1", toJson (cmatToBits (cpccaInverse1 F (cpccaTransform1 F Xn false))))]
+    else Json.mkObj [("status", "ValueError")]
+  | "whitener" =>
+    let n := getNat j "n"; let p := getNat j "p"; let k := getNat j "k"; let m := getNat j "m"
+    let X := cmatOfBits n p (getStrArr j "X"); let V := cmatOfBits p p (getStrArr j "V")
+    let sA := (getStrArr j "s").map bitsToFloat
+    let s : Fin p → Float := fun i => sA[i.val]!
+    let alpha := bitsToFloat (getStr j "alpha")
+    let smax := (List.finRange p).foldl (fun a i => if s i > a then s i else a) 0.0
+    let eps : Float := 2.220446049250313e-16
+    let keep : Fin p → Bool := fun i => if Gen.fracPowerCutoffIsRelative then s i > eps * smax else s i > eps
+    let F : WhitenFit p CF := whitenFit V s keep alpha
+    let P := cmatOfBits p k (getStrArr j "P"); let Xn := cmatOfBits m p (getStrArr j "Xn")
+    let Z := whitenTransform F Xn
+    let C : Mat p p CF := whitenCov (ρ := Float) X
+    Json.mkObj [("status", "ok"), ("cov", toJson (cmatToBits C)), ("T", toJson (cmatToBits F.T)), ("Tinv", toJson (cmatToBits F.Tinv)),
+      ("transform", toJson (cmatToBits Z)), ("inverse", toJson (cmatToBits (whitenInverseData F Z))),
+      ("tcomps", toJson (cmatToBits (whitenTransformComps F P))), ("icomps", toJson (cmatToBits (whitenInverseComps F P)))]
+  | "pca" =>
+    let p := getNat j "p"; let k := getNat j "k"; let m := getNat j "m"; let r := getNat j "r"
+    let V := cmatOfBits p k (getStrArr j "V"); let Xn := cmatOfBits m p (getStrArr j "Xn"); let P := cmatOfBits p r (getStrArr j "P")
+    let Z := pcaTransform V Xn
+    let Q := pcaTransformComps V P
+    Json.mkObj [("status", "ok"), ("transform", toJson (cmatToBits Z)), ("inverse", toJson (cmatToBits (pcaInverseData V Z))),
+      ("tcomps", toJson (cmatToBits Q)), ("icomps", toJson (cmatToBits (pcaInverseComps V Q)))]
+  | "rotator" =>
+    let n := getNat j "n"; let p := getNat j "p"; let k := getNat j "k"; let m := getNat j "m"
+    let comps0 := cmatOfBits p k (getStrArr j "comps0"); let scores0 := cmatOfBits n k (getStrArr j "scores0")
+    let evA := (getStrArr j "expvar0").map bitsToFloat; let svA := (getStrArr j "svals0").map bitsToFloat
+    let expvar0 : Fin k → Float := fun i => evA[i.val]!
+    let svals0 : Fin k → Float := fun i => svA[i.val]!
+    let R := cmatOfBits k k (getStrArr j "R"); let RinvT := cmatOfBits k k (getStrArr j "RinvT")
+    let L : Mat p k CF := rotLoadings comps0 expvar0 R
+    let rc : Mat p k CF := rotComps (ρ := Float) L
+    let ev : Fin k → Float := rotExpvar L
+    let sgn : Fin k → Float := fun jj => csignOfCol rc jj
+    let idx : List (Fin k) := (List.finRange k).mergeSort (fun a b => ev a ≥ ev b)
+    let perm : Fin k → Fin k := fun jj => idx.getD jj.val jj
+    let F : RotFit n p k Float CF := rotFit comps0 expvar0 scores0 svals0 R RinvT sgn perm
+    let X := cmatOfBits m p (getStrArr j "X")
+    let tf := rotTransform F comps0 svals0 RinvT perm X
+    Json.mkObj [("status", "ok"), ("comps", toJson (cmatToBits F.comps)), ("scores", toJson (cmatToBits F.scores)),
+      ("expvar", toJson (vecToBits F.expvar)), ("norms", toJson (vecToBits F.norms)), ("sgn", toJson (vecToBits F.sgn)),
+      ("perm", toJson ((List.finRange k).map fun jj => (perm jj).val)),
+      ("transform", toJson (cmatToBits tf)), ("inverse", toJson (cmatToBits (rotInverse F tf))),
+      ("uses_inverse", Gen.rotatorSingleUsesInverse (getInt j "power"))]
+  | _ => Json.mkObj [("status", "bad-request")]
+
 def handle (j : Json) : Json :=
+  if getBool j "cplx" then handleC j else
   match getStr j "fn" with
   | "eof" =>
     -- post-processing of an oracle SVD: U (n×r), s (r), V (p×r) -> k modes
